@@ -28,11 +28,23 @@ theorem c11_response_unique_owner (prog : List (Env × Op)) :
   ⟨h.b1, h.b2, h.ne⟩
 
 /-- **C11 (response writer), nothing is kept.** After flushResponse (which ends with releaseResponse)
-the response holds no pooled buffer any more, whatever happened before (errors included). -/
+the response holds no pooled buffer any more, whatever happened before (errors included) — the two
+`= none` conjuncts hold by definition of `release`; the content is in the other three: the heap has not
+flagged, and whatever the response still held when its flush returned (`finishFlush`) has really gone back to
+the pool: it is dead afterwards.  (NOT claimed: that no other buffer stays live — leak freedom is not part of
+C11 and `Inv` has no "every live id has an owner" clause; the harness audits leaks with the tracker.) -/
 theorem c11_response_released (e : Env) (prog : List (Env × Op)) :
-    (finish e (run {} prog)).1.buffer = none ∧ (finish e (run {} prog)).1.bodyBuffer = none := by
-  unfold finish
-  exact release_empty _
+    let p := (finishFlush e (run {} prog)).1
+    let o := (finish e (run {} prog)).1
+    o.buffer = none ∧ o.bodyBuffer = none ∧ o.heap.bad = none ∧
+      (∀ id n, p.buffer = some (id, n) → o.heap.live id = false) ∧
+      (∀ id n, p.bodyBuffer = some (id, n) → o.heap.live id = false) := by
+  intro p o
+  have hp : Inv 0 (fun _ => false) p := finishFlush_inv e _ (run_inv (B := 0) (S := fun _ => false) {} prog inv_init)
+  have ho : o = release p := rfl
+  have hd := release_dead p hp
+  rw [ho]
+  exact ⟨(release_empty p).1, (release_empty p).2, (release_inv p hp).ok, hd.1, hd.2⟩
 
 /-! ### non-vacuity -/
 
@@ -160,7 +172,7 @@ theorem c11_conn_close_releases (capOf : Nat → Nat) (maxWB : Nat) (ops : List 
 /-- non-vacuity: a backlog that is merged with growth, partly flushed, and released by a fatal error -/
 example :
     let capOf := fun n => max 64 ((n + 63) / 64 * 64)
-    let s := crun capOf 0 {} [.write 100 .eagain, .write 3000 .eagain, .write 70000 .eagain,
+    let s := crun capOf 0 {} [.write 100 [.eagain], .write 3000 [.eagain], .write 70000 [.eagain],
                                .flush [.wrote 1000], .flush [.fail]]
     s.heap.bad = none ∧ s.closed = true ∧ s.wl = [] ∧
       s.heap.trace.reverse = [.write none, .malloc 1 100, .malloc 2 3100, .free 1, .append 2, .malloc 3 70000,
